@@ -159,7 +159,8 @@ class Check:
         if rc != 0 or "DRIVER-FAIL" in out:
             self.l1_broken.append(("executable-model", "the extracted model / driver does not build: " + out.strip()[-400:]))
         users = {"tr_pathrules": ["C07"], "tr_constraints": ["C16"], "tr_forwarding": ["C11"], "tr_attrflow": ["C12"],
-                 "tr_kauriformulas": ["C08"], "tr_dataconstants": ["C20"], "tr_fdiv": ["C01", "C02", "C13", "C17"]}
+                 "tr_kauriformulas": ["C08"], "tr_dataconstants": ["C20"], "tr_fdiv": ["C01", "C02", "C13", "C17"],
+                 "tr_geom": ["C01", "C02", "C13", "C17"], "tr_models": ["C03", "C18", "C04", "C06"]}
         for m in re.finditer(r"TRANSLATOR-FAIL (\S+)", out):
             name = os.path.basename(m.group(1))[:-3]
             if self.pid in users.get(name, [self.pid]):
